@@ -388,14 +388,16 @@ class Conf2x3Space(ProxSpace):
     """All {0,T} layouts of 2x3 x metric (each metric on its own coordinate system), otherwise default arguments."""
     SYS = {"EUCLIDEAN": "unit_asc", "MANHATTAN": "x0.5_y2desc", "GREAT_CIRCLE": "lonlat_mid"}
 
-    def __init__(self, mode):
+    def __init__(self, mode, other_metric_stride=1):
         self.mode = mode
         self.name = "conf_2x3_" + mode
-        self.size = 64 * 3
+        # every layout under EUCLIDEAN; every `stride`-th layout under the two other metrics (stride 1 = all)
+        self.pairs = [(0, lay) for lay in range(64)] + [(mi, lay) for mi in (1, 2) for lay in range(1, 64, other_metric_stride)]
+        self.size = len(self.pairs)
         self.weight = 1000 if mode == "jit" else 1
 
     def case(self, rank):
-        mi, lay = divmod(rank, 64)
+        mi, lay = self.pairs[rank]
         letters = unrank_product(lay, [2] * 6)
         return config_case((2, 3), letters, self.SYS[METRICS[mi]], METRICS[mi], "inf", 0)
 
@@ -434,7 +436,7 @@ BOUNDS = {t: {"default_configuration": [dict(shape=list(s), letters=["0", "T", "
                                                max_distance=MAXD, target_values=[n for n, _ in TVS[:b["config"][1]]]),
               "sparse_0T": [dict(shape=list(sh), max_targets=k, exactness_asserted="all layouts" if ex else "1 target")
                             for sh, k, ex in b["sparse"]],
-              "jit_conformance": dict(all_layouts="2x3 x 3 metrics", slice_3x3=dict(layouts=b["slice"][0], variants=b["slice"][1],
+              "jit_conformance": dict(all_layouts="2x3: all 64 layouts x EUCLIDEAN; MANHATTAN and GREAT_CIRCLE on all (interpreted, thorough) or every 4th layout (compiled, quick)", slice_3x3=dict(layouts=b["slice"][0], variants=b["slice"][1],
                                                                                     metrics=3)),
               "tolerances": dict(rtol=RTOL, atol=ATOL, bearing_deg=ANG_TOL)} for t, b in TIERS.items()}
 
@@ -447,6 +449,6 @@ def build(tier):
     spaces.append(ConfigSpace(*b["config"]))
     spaces += [SparseSpace(*sp) for sp in b["sparse"]]
     for mode in ("jit", "interp"):
-        spaces.append(Conf2x3Space(mode))
+        spaces.append(Conf2x3Space(mode, 4 if (tier == "quick" and mode == "jit") else 1))
         spaces.append(Conf3x3Space(mode, *b["slice"]))
     return spaces
